@@ -51,6 +51,8 @@ def ws2dwcvp(y, nodata, p, llas, robust, out, lopt):
     d_eigs[0] = 1e-15
 
     if n > 4:
+        # missing cells carry zero weight: keep NaN/inf out of the solver and the scores
+        yv = np.where(w > 0, y, 0.0)
         z = np.zeros(m)
         znew = np.zeros(m)
         wa = np.zeros(m)
@@ -74,11 +76,11 @@ def ws2dwcvp(y, nodata, p, llas, robust, out, lopt):
 
             w_temp = w * r_weights
             for s in lambda_range:
-                z = ws2d(y, s, w_temp)
+                z = ws2d(yv, s, w_temp)
 
                 gamma = w_temp / (w_temp + s * ((-1 * d_eigs) ** 2))
                 tr_H = gamma.sum()
-                wsse = (((w_temp**0.5) * (y - z)) ** 2).sum()
+                wsse = (((w_temp**0.5) * (yv - z)) ** 2).sum()
                 denominator = w_temp.sum() * (1 - (tr_H / (w_temp.sum()))) ** 2
                 gcv_score = wsse / denominator
 
@@ -93,7 +95,7 @@ def ws2dwcvp(y, nodata, p, llas, robust, out, lopt):
 
             if robust:
                 gamma = w_temp / (w_temp + s * ((-1 * d_eigs) ** 2))
-                r_arr = y - y_temp
+                r_arr = yv - y_temp
 
                 mad = np.median(
                     np.abs(r_arr[r_weights != 0] - np.median(r_arr[r_weights != 0]))
@@ -119,12 +121,12 @@ def ws2dwcvp(y, nodata, p, llas, robust, out, lopt):
         z[:] = 0.0
 
         for _ in range(10):
-            envelope = y > z
+            envelope = yv > z
             wa[envelope] = p
             wa[~envelope] = 1 - p
             ww = robust_weights * wa
 
-            znew[0:m] = ws2d(y, lopt[0], ww)
+            znew[0:m] = ws2d(yv, lopt[0], ww)
 
             z_tmp = np.sum(np.abs(znew - z))
             if z_tmp == 0.0:
@@ -132,7 +134,7 @@ def ws2dwcvp(y, nodata, p, llas, robust, out, lopt):
 
             z[0:m] = znew[0:m]
 
-        z = ws2d(y, lopt[0], ww)
+        z = ws2d(yv, lopt[0], ww)
         np.round(z, 0, out)
 
     else:
